@@ -46,7 +46,8 @@ CONSTANTS D,             \* size of the length prefix (size_of::<usize>() = 8)
           Canonical,     \* TRUE: canonical schedules only - bytes move to the receiver's socket only when it is
                          \* empty and the receiver is woken up only when there is something to read (a reduction
                          \* for the quick exhaustive run: what readable() sees is still every possible amount)
-          Bounded,       \* TRUE: count writes/injections and keep ids (history); FALSE: finite core state only
+          Bounded,       \* TRUE: count writes/injections and number the frames; FALSE: finite core state only
+          History,       \* TRUE (needs Bounded): keep the observation history `obs` that P_C11_History talks about
           Record,        \* TRUE: keep the step history `hist` (generator configs)
           Depth,         \* generator: behaviour length
           Deviations     \* subset of {"UndecodableWedge", "OversizeWedge", "FullNoShift"}: the code as it (mis)behaves
@@ -57,7 +58,7 @@ VARIABLES back, txI, txR,        \* sender: back buffer [pos,end,cap], interest/
           frames,                \* frames between the sender's buffer and the receiver's parser (FIFO)
           skip,                  \* receiver is discarding an oversized frame: bytes still to drop (design only)
           nW, nI, nextId,        \* counters (frozen unless Bounded)
-          obs,                   \* observation history [sent, delivered, errs] (frozen unless Bounded)
+          obs,                   \* observation history [sent, delivered, errs] (frozen unless History)
           hist                   \* step history (only if Record)
 
 core == <<back, txI, txR, front, rxI, rxR, nWire, nSock, frames, skip>>
@@ -207,7 +208,7 @@ Proj(bk, ti, tr, fr, ri, rr, w, s) ==
 
 Log(step) == hist' = IF Record THEN Append(hist, step) ELSE hist
 Count(v, on) == IF Bounded /\ on THEN v + 1 ELSE v
-Obs(field, x, on) == IF Bounded /\ on THEN [obs EXCEPT ![field] = Append(@, x)] ELSE obs
+Obs(field, x, on) == IF History /\ on THEN [obs EXCEPT ![field] = Append(@, x)] ELSE obs
 
 ---------------------------------------------------------------------------
 (* Actions *)
@@ -308,7 +309,7 @@ ReadMessage ==
      /\ rxI' = (rxI \/ r.setI)
      /\ skip' = r.skip
      /\ frames' = IF r.pop THEN Tail(fs1) ELSE fs1
-     /\ obs' = IF ~Bounded THEN obs
+     /\ obs' = IF ~History THEN obs
                ELSE IF r.res = "ok" THEN [obs EXCEPT !.delivered = Append(@, h.id)]
                ELSE IF r.res \in {"too_large", "under_delimiter", "invalid_protobuf", "buffer_full"}
                     THEN [obs EXCEPT !.errs = @ \cup {<<h.id, r.res>>}]
@@ -418,7 +419,7 @@ GoodIds(fs) == IF fs = <<>> THEN <<>>
 IsPrefixOf(s, t) == Len(s) <= Len(t) /\ \A i \in 1..Len(s) : s[i] = t[i]
 QueuedIds == {frames[i].id : i \in 1..Len(frames)}
 P_C11_History ==
-  Bounded =>
+  History =>
     /\ IsPrefixOf(obs.delivered, GoodIds(obs.sent))
     /\ \A i \in 1..Len(obs.sent) :
          LET f == obs.sent[i]
